@@ -842,7 +842,47 @@ def check_c20(tier, seed, work):
     return cov, r.get("violations") or []
 
 
+PROTOMAP_CFG = """SPECIFICATION Spec
+CONSTANTS
+  Family = "%s"
+  Small = %s
+INVARIANT RoundTrip
+INVARIANT NonCanonicalCollides
+INVARIANT AnnotatedPaths
+CONSTRAINT Emit
+"""
+
+
+def check_c24(tier, seed, work):
+    """C24: Protomap.tla enumerates abstract messages over the supported kinds of the repository's
+    annotated test protos (Root, ExampleMessage), checks Unflatten(Flatten(m)) = m and that every
+    path is annotated; every message is built, flattened by PathsFromProto and rebuilt by
+    ProtoFromPaths."""
+    h, bindir = vf.prepare(work, ["us"])
+    outs = []
+    states = 0
+    for fam in ("root", "example"):
+        mc = vf.run_tlc(work, "Protomap", PROTOMAP_CFG % (fam, "TRUE" if tier == "quick" else "FALSE"), tag="pm" + fam, workers=16)
+        states += mc["distinct"]
+        outs.append(mc["out"])
+    r = run_replay(bindir, h, "protomap", ["-in", ",".join(outs), "-prop", "C24"], work, "protomap")
+    if r["evaluated"] == 0 or r["distinct"] != states:
+        raise Infra("protomap replay evaluated %d of %d model messages" % (r["distinct"], states))
+    cov = dict(states=states, transitions=states, traces_validated_against_impl=r["evaluated"], exhaustive=True,
+               samples=(r.get("samples") or [])[:3], counters=r.get("counters"),
+               explanation="every message of the bounded model: Root (hostname, 0-2 interfaces keyed by string with optional description, "
+               "0-2 subinterfaces each keyed by uint64 0 / 2^64-1 with optional description) and ExampleMessage (string, uint (42, 2^64-1), "
+               "bytes wrappers, enum, compressed state leaf, leaf-lists of string, uint and bytes, leaf-lists of a string|uint64|enum union and of "
+               "a uint64|enum union of length 0-2 in every order, list em with 0-2 string keys, a member leaf and a nested keyed list). "
+               "Messages whose union elements the flattened form cannot distinguish (an enum where a string member precedes it) are "
+               "counted under non_canonical_union_messages and only checked for errors and panics. Exhaustive over this grid; the "
+               "values themselves are sampled. Kinds the property leaves out (bool, int, decimal64 wrappers, oneof, multi-key lists with "
+               "uint32 keys, non-leaf-list unions) are not populated.")
+    return cov, r.get("violations") or []
+
+
 PIPELINES = {
+    "C24": check_c24,
     "C10": lambda tier, seed, work: check_tree("C10", tier, seed, work, "set,setll", ["SetGetFrame"]),
     "C12": lambda tier, seed, work: check_tree("C12", tier, seed, work, "delete", ["DeleteExact"]),
     "C01": lambda tier, seed, work: check_treelaws("C01", tier, seed, work, "c01", ["RoundTrip7951"]),
